@@ -18,7 +18,7 @@ LEVEL_TEXT = ("Decides clauses C12-a/b/c: the Ok return of JWT::verified is domi
               "payload and calls the inner proc only on the Ok edge. Decides these clauses, not cryptographic soundness over all tokens.")
 
 AUDIT = [
-    {"fn": r"jwt::JWT::<Payload>::verified$", "sink": r"^panic-call:Result::unwrap$",
+    {"fn": r"^ohkami::fang::builtin::jwt::", "sink": r"^panic-call:Result::unwrap$",
      "guards": [{"kind": "operand", "which": "arg0", "from": {"call": r"KeyInit>::new_from_slice$|::new_from_slice$"}}],
      "reason": "Hmac::new_from_slice accepts keys of any length (InvalidLength is never returned for HMAC)"},
     {"fn": r"ohkami::util::unix_timestamp$", "sink": r"^panic-call:Result::unwrap$",
@@ -207,6 +207,73 @@ def whole_slice_helper(prog, h):
     return True, "helper %s: false unless lengths are equal, then one accumulated comparison" % h.name
 
 
+def mac_helper_summary(prog, H):
+    """A local helper `H(&self, chunks) -> bytes` that computes the keyed MAC of the concatenated chunks under self.alg.
+    -> ({variant: digest OID name}, how) or (None, why). Accepted shape: every answer of H is, under one arm of a match on
+    self.alg, a call `M::<Hmac<ShaN>>(self.secret bytes, chunks)` of one local generic function M, and M is
+    new_from_slice(key); update(chunk) for each chunk in order; finalize().into_bytes()."""
+    out = {}
+    Ms = set()
+    for bb, kind, pl in paths.ret_sites(H):
+        if kind != "call" or pl.callee not in prog.fns:
+            return None, "an answer of %s is not a call of a local MAC function" % H.name
+        vf = [fa for fa in guards.facts_at(H, prog, bb) if fa.kind == "variant" and fa.allowed and len(fa.allowed) == 1 and "alg" in guards.describe_origin(H, fa.steps)]
+        if not vf:
+            return None, "%s computes a MAC outside a match on self.alg" % H.name
+        (variant,) = tuple(vf[-1].allowed)
+        tx = " ".join(pl.targs or []) + " " + (pl.full or "")
+        m = re.search(r"OidSha(256|384|512)", tx) or re.search(r"Sha(256|384|512)\b(?!VarCore)", tx)
+        if not m:
+            return None, "arm %s of %s does not name its hash" % (variant, H.name)
+        out[variant] = "OidSha" + m.group(1)
+        key = decision.describe_deep(H, pl.args[0], 4)
+        if "arg1.secret" not in key:
+            return None, "arm %s keys the MAC with `%s`, not self.secret" % (variant, key)
+        if decision.describe_deep(H, pl.args[1], 2) != "arg2":
+            return None, "arm %s does not MAC the chunks it was given" % variant
+        Ms.add(pl.callee)
+    if len(Ms) != 1:
+        return None, "%s uses %d different MAC functions" % (H.name, len(Ms))
+    M = prog.fns[tuple(Ms)[0]]
+    nf = M.calls_to(r"::new_from_slice$")
+    up = M.calls_to(r"::update$")
+    fin = M.calls_to(r"::finalize$")
+    if not (len(nf) == 1 and len(up) == 1 and len(fin) == 1):
+        return None, "%s is not new_from_slice; update per chunk; finalize" % M.name
+    from .lib.bound import natural_loops
+    loops = natural_loops(M)
+    in_loop = any(up[0].bb in body for body in loops.values())
+    ok = (decision.describe_deep(M, nf[0].args[0], 2) == "arg1" and in_loop and "arg2" in decision.describe_deep(M, up[0].args[1], 5)
+          and paths.root_call(M, up[0].args[0], through=paths.TRANSPARENT + r"|DerefMut>::deref_mut$") is not None and paths.root_call(M, up[0].args[0], through=paths.TRANSPARENT + r"|DerefMut>::deref_mut$").bb == nf[0].bb
+          and paths.root_call(M, fin[0].args[0]) is not None and paths.root_call(M, fin[0].args[0]).bb == nf[0].bb and M.dominates(nf[0].bb, fin[0].bb)
+          and not any(fin[0].bb in body for body in loops.values()))
+    # every chunk is fed: the update is not under any condition other than the loop's own `Some(chunk)`
+    conds = [fa for fa in guards.facts_at(M, prog, up[0].bb) if fa.kind in ("cmp", "boolcall", "int", "boolplace", "boolphi")]
+    ok = ok and not conds
+    rets = paths.ret_sites(M)
+    ok = ok and len(rets) == 1 and "finalize(" in decision.describe_deep(M, ["c", [0, []]], 6)
+    if not ok:
+        return None, "%s does not feed every chunk, in order, into one MAC keyed with its first argument" % M.name
+    return out, "%s -> %s" % (H.name, M.name)
+
+
+def chunks_of(f, op):
+    """the elements of an array literal passed (by reference) as the chunk list -> [operand] or None"""
+    st = f.origin(op)
+    for _ in range(4):
+        if st and st[-1][0] == "agg" and st[-1][1][1].get("k") == "array":
+            return list(st[-1][1][2])
+        if st and st[-1][0] == "call" and st[-1][1].args:
+            st = f.origin(st[-1][1].args[0])
+            continue
+        break
+    lv = paths.leaf_values(f, op)
+    for l in lv:
+        if l[0] == "other" and isinstance(l[1], list) and l[1][0] == "agg" and l[1][1].get("k") == "array":
+            return list(l[1][2])
+    return None
+
+
 def check_sig_eq(f, prog, eqc, nx):
     """eqc: the call comparing the MAC with the presented signature -> (ok, how)"""
     if re.search(r"PartialEq", eqc.callee or ""):
@@ -223,6 +290,39 @@ def check_sig_eq(f, prog, eqc, nx):
     ra, rb = paths.root_call(f, a), paths.root_call(f, b)
     if ra is not None and ra.name != "finalize":
         ra, rb, a, b = rb, ra, b, a
+    # form 2: the MAC comes from a local helper shared with issue(): H(self, [header part, ".", payload part])
+    for (x, y, rx, ry) in ((a, b, ra, rb), (b, a, rb, ra)):
+        if rx is not None and rx.callee in prog.fns and ry is not None and ry.name == "base64_url_decode" and "jwt::JWT" in (rx.callee or ""):
+            H = prog.fns[rx.callee]
+            summ, why = mac_helper_summary(prog, H)
+            if summ is None:
+                return False, why
+            adt = prog.adt(r"jwt::VerifyingAlgorithm$")
+            variants = [v["name"] for v in adt["variants"]]
+            if set(summ) != set(variants) or any(DIGEST.get(v) != d for v, d in summ.items()):
+                return False, "the MAC helper maps %r, expected %r" % (summ, DIGEST)
+            sigpart = paths.root_call(f, ry.args[0])
+            if sigpart is None or len(nx) < 3 or sigpart.bb != nx[2].bb:
+                return False, "the decoded signature is not the 3rd part"
+            ch = chunks_of(f, rx.args[1]) if len(rx.args) > 1 else None
+            if ch is None:
+                return False, "the chunk list given to %s is not an array literal" % H.name
+            seq = []
+            for o in ch:
+                stc = f.origin(o)
+                lits = [x[1] for x in stc if x[0] == "const"]
+                cs = None
+                if stc and stc[-1][0] == "const":
+                    cs = stc[-1][1].get("s")
+                if cs is not None:
+                    seq.append(cs)
+                else:
+                    r = paths.root_call(f, o)
+                    idx = [i for i, n in enumerate(nx) if r is not None and n.bb == r.bb]
+                    seq.append("part%d" % (idx[0] + 1) if idx else "?")
+            if seq != ["part1", ".", "part2"]:
+                return False, "the helper MACs %s, expected [header part, '.', payload part]" % seq
+            return True, "MAC helper %s (%s) over part1 '.' part2 == base64url(part3), whole-slice eq" % (H.name, ", ".join("%s:%s" % (v, d[3:]) for v, d in sorted(summ.items())))
     if ra is None or ra.name != "finalize" or rb is None or rb.name != "base64_url_decode":
         return False, "compares %s with %s, expected finalize().into_bytes() with base64_url_decode(signature part)" % (decision.describe_deep(f, a, 3), decision.describe_deep(f, b, 3))
     sigpart = paths.root_call(f, rb.args[0])
@@ -282,8 +382,28 @@ def c12b(ck, prog):
     # issue(): per arm Hmac<Sha n>(secret).update(unsigned_token) ; unsigned_token = b64(header_str) '.' b64(payload)
     f = prog.method(r"jwt::JWT<Payload>$", "issue")
     macs = f.calls_to(r"::new_from_slice$")
-    ck.floor(R, "issue arms", len(macs), 3)
     seen = set()
+    helper_calls = [c for c in f.calls() if c.callee in prog.fns and "jwt::JWT" in (c.callee or "") and mac_helper_summary(prog, prog.fns[c.callee])[0] is not None] if not macs else []
+    if helper_calls:
+        # issue() signs through the same MAC helper verified() uses
+        hc = helper_calls[0]
+        summ, how_h = mac_helper_summary(prog, prog.fns[hc.callee])
+        vh = [c for c in prog.method(r"jwt::JWT<Payload>$", "verified").calls() if c.callee == hc.callee]
+        ok = len(helper_calls) == 1 and bool(vh) and all(DIGEST.get(v) == d for v, d in summ.items())
+        ck.ob(R, "issue:same-MAC-helper-as-verified", ok, f.loc(hc.sp), "" if ok else "issue() and verified() do not compute the MAC through the same helper with the expected hash per algorithm (%r)" % summ, how=how_h)
+        seen = set(summ)
+        ch = chunks_of(f, hc.args[1]) if len(hc.args) > 1 else None
+        ok = ch is not None and len(ch) == 1
+        srcs, exts = [], []
+        if ok:
+            start = paths.root_call(f, ch[0])
+            ok = start is not None and start.name == "base64_url_encode" and "header_str(" in decision.describe_deep(f, start.args[0], 3)
+            ext = [c for c in f.calls_to(r"String::(push|push_str)$") if paths.root_call(f, c.args[0]) is not None and start is not None and paths.root_call(f, c.args[0]).bb == start.bb and f.dominates(c.bb, hc.bb)]
+            exts = [(c.name, decision.describe_deep(f, c.args[1], 4)) for c in ext]
+            ok = ok and len(ext) == 2 and exts[0] == ("push", "const '.'") and exts[1][0] == "push_str" and "base64_url_encode(" in exts[1][1] and "to_vec(" in exts[1][1]
+        ck.ob(R, "issue:signed-bytes", ok, f.loc(hc.sp), "" if ok else "issue() MACs %s, expected b64(header_str) + '.' + b64(to_vec(payload)) once" % (exts,), how="helper([b64(header) . b64(payload)])")
+    else:
+        ck.floor(R, "issue arms", len(macs), 3)
     for mac in macs:
         vf = [fa for fa in guards.facts_at(f, prog, mac.bb) if fa.kind == "variant" and fa.allowed and len(fa.allowed) == 1 and "alg" in guards.describe_origin(f, fa.steps)]
         if not vf:
